@@ -6,7 +6,7 @@ RULE = ("for each output length cap: writes of input lengths {1, 2, adv-1, adv, 
         "length, consumed >= what the advertised maximum alone gets consumed. quick: cap in 6..=11000 step 7 plus boundaries and "
         "neighbourhoods of multiples of 10248; thorough: every cap in 6..=11000 (exhaustive over cap) plus neighbourhoods. "
         "Whole-body loops: body of N bytes sent with a fixed buffer, must finish within the number of steps an independent "
-        "reference needs. Sized bodies: cap >= 1. non-trivial = progress made; distinct = distinct (cap, inputs)")
+        "reference needs. Sized bodies: cap >= 1, also for declared lengths of 4 GiB and more. Output lengths ascend and descend within one body; the head is written with one call more than needed. non-trivial = progress made; distinct = distinct (cap, inputs)")
 TRUSTED_BASE = COMMON_TRUSTED_BASE
 ASSUMPTIONS = ["64-bit usize"]
 EXHAUSTIVE = {"quick": False, "thorough": False}
@@ -47,12 +47,16 @@ def generate(rng, tier, mult):
     cs = caps(tier, rng, mult)
     _stats["caps"] = len(cs)
     scripts = []
-    head = [op_new("POST", "1.1", "http", "a.test", "/", []), "proceed", "write_head #4096", "proceed"]
+    # (the head is written "until write returns 0": one call more than needed, which must change nothing)
+    head = [op_new("POST", "1.1", "http", "a.test", "/", []), "proceed", "write_head #4096", "write_head #4096", "proceed"]
     per = 12
-    for i in range(0, len(cs), per):
+    for gi, i in enumerate(range(0, len(cs), per)):
         ops = list(head)
         meta = []
-        for cap in cs[i:i + per]:
+        group = cs[i:i + per]
+        if gi % 2 == 1:
+            group = group[::-1]      # output lengths also shrink within one body (a caller writing into the rest of one buffer)
+        for cap in group:
             adv = calc_max_input(cap)
             lens = sorted(set([1, 2, max(adv - 1, 1), max(adv, 1), adv + 1] + [max(cap + d, 1) for d in range(-6, 2)] +
                               ([10239, 10240, 10241] if cap > 9000 else []) + ([20480, 30000] if cap % 5 == 0 or cap > 10000 else [])))
@@ -85,6 +89,12 @@ def generate(rng, tier, mult):
             ops.append("write_from %s %s" % (num(total), num(cap)))
         ops += ["write_from #10 %s" % num(cap), "q_can_proceed"]
         scripts.append({"ops": ops, "meta": {"kind": "loop", "cap": cap, "total": total, "steps": steps}})
+    # sized bodies of 4 GiB and more: every write moves min(input, output, remaining) > 0 bytes
+    for total in [2 ** 32, 2 ** 32 + 20, 2 ** 33 + 100, 2 ** 64 - 1]:
+        ops = [op_new("PUT", "1.1", "http", "a.test", "/", [("content-length", str(total))]), "proceed", "write_head #4096", "proceed"]
+        for ln, cap in [(1, 1), (100, 100), (20, 100), (100, 7), (500, 100), (100, 100)]:
+            ops.append("write_sum z%d %s" % (ln, num(cap)))
+        scripts.append({"ops": ops, "meta": {"kind": "sizedbig", "total": total}})
     # sized
     for total in [1, 5, 1000]:
         ops = [op_new("POST", "1.1", "http", "a.test", "/", [("content-length", str(total))]), "proceed", "write_head #4096", "proceed", "body z%d" % total]
@@ -137,6 +147,17 @@ def oracle(script, obs):
                     fails.append("output %d: input %d consumed %d < %d consumed for the advertised maximum %d" % (cap, ln, ci, adv_consumed, adv))
                     return fails
                 prev = (ln, ci)
+    elif kind == "sizedbig":
+        for op, o in zip(ops, obs):
+            p = op.split(" ")
+            if p[0] != "write_sum":
+                continue
+            if not o.startswith("ok "):
+                return ["write failed: %s" % o]
+            ci, co, _ = parse_counts(o)
+            want = min(len(unhex(p[1])), unnum(p[2]))
+            if ci != want:
+                return ["sized body of %d bytes: a write of %d bytes into %d consumed %d (no progress / less than fits)" % (script["meta"]["total"], len(unhex(p[1])), unnum(p[2]), ci)]
     elif kind == "loop":
         total = script["meta"]["total"]
         sent = 0
